@@ -9,6 +9,15 @@ sys.path.insert(0, VERIF)
 from harness.core import CHECKS  # noqa
 
 TABLE = {
+    "C17": dict(
+        category="exploration", design_ref="3/C17",
+        technique="Hypothesis-generated plaintext lengths placed around the limit by construction x compressibility classes x producers (joserfc, independent reference at DEFLATE levels 0-9, zlib framing, chunk-wise built bombs), exact round-trip / must-raise oracle plus tracemalloc peak-memory bound",
+        text="~2700 cases per quick run: lengths 256000+delta (delta from -1000 to +5000 incl. the 255..260 window of a pending match), small sizes and 0.5-3 MiB, six compressibility classes, 8 "
+             "content encryptions, compact and flattened, streams made by joserfc (also re-encrypting the same object) and by the reference (levels 0-9, zlib header), 120 bombs expanding to "
+             "8-64 MiB (thorough: up to 512 MiB) built without materialising the plaintext. Within the limit the exact octets must come back, beyond it ExceededSizeError, joserfc's own "
+             "stream must be complete raw DEFLATE, and Python-level peak memory must stay under 4*256000 + 8*len(token) + 2 MiB.",
+        note="tracemalloc sees Python allocations (incl. zlib output buffers), not RSS; truncated foreign streams are DONT_CARE",
+    ),
     "C12": dict(
         category="exploration", design_ref="3/C12",
         technique="Hypothesis-generated keys, signing and encryption plans; taint-style output scanner (raw / base64url / base64 / hex spellings of every private parameter incl. captured ephemeral keys) with positive controls; must-raise oracle for private exports from public keys",
